@@ -10,6 +10,7 @@ import (
 
 	"github.com/smart-core-os/sc-api/go/types"
 	"google.golang.org/protobuf/proto"
+	"google.golang.org/protobuf/types/known/fieldmaskpb"
 
 	"github.com/smart-core-os/sc-golang/pkg/resource"
 	"github.com/smart-core-os/sc-golang/verifharness/hx"
@@ -31,8 +32,12 @@ type streamCase struct {
 		V  Msg    `json:"v"`
 	} `json:"writes"`
 	Subs []struct {
-		Uo bool `json:"uo"` // updates only
-		At int  `json:"at"` // opened after this many writes
+		Uo   bool `json:"uo"` // updates only
+		At   int  `json:"at"` // opened after this many writes
+		Mask struct {
+			Nil bool     `json:"nil"`
+			Fs  []string `json:"fs"`
+		} `json:"mask"` // read mask over the fields the walk touches
 	} `json:"subs"`
 	Sc int `json:"sc"`
 	Tb int `json:"tb"`
@@ -215,12 +220,12 @@ func runStream(c streamCase) map[string]any {
 			val  *resource.Value
 			coll *resource.Collection
 			// what the resource stores, tracked from the writes themselves
-			stored = map[string]proto.Message{}
+			stored = map[string]Msg{}
 		)
 		if c.Res == "val" {
 			if c.Init.Has {
 				opts = append(opts, resource.WithInitialValue(e.conc(c.Init.V)))
-				stored[""] = e.conc(c.Init.V)
+				stored[""] = c.Init.V
 			}
 			val = resource.NewValue(opts...)
 		} else {
@@ -248,6 +253,9 @@ func runStream(c streamCase) map[string]any {
 				ctx, cancel := context.WithCancel(context.Background())
 				cancels = append(cancels, cancel)
 				ro := []resource.ReadOption{resource.WithBackpressure(true), resource.WithUpdatesOnly(so.Uo)}
+				if !so.Mask.Nil {
+					ro = append(ro, resource.WithReadMask(concMask(so.Mask.Fs)))
+				}
 				if val != nil {
 					subs[si] = thePump.adopt(val.Pull(ctx, ro...), true)
 				} else {
@@ -255,7 +263,11 @@ func runStream(c streamCase) map[string]any {
 				}
 				open = append(open, subs[si])
 				thePump.run([]*subState{subs[si]}, func() bool { return true }, "waiting for the seed")
-				seedok[si] = seedMatches(subs[si].events, stored, so.Uo)
+				shown := map[string]proto.Message{}
+				for id, m := range stored {
+					shown[id] = e.conc(proj(m, so.Mask.Nil, so.Mask.Fs))
+				}
+				seedok[si] = seedMatches(subs[si].events, shown, so.Uo)
 				mark[si] = len(subs[si].events)
 			}
 			if k == nW {
@@ -288,7 +300,7 @@ func runStream(c streamCase) map[string]any {
 			if w.Op == "del" {
 				delete(stored, w.ID)
 			} else {
-				stored[w.ID] = e.conc(w.V)
+				stored[w.ID] = w.V
 			}
 			for si, s := range subs {
 				if s == nil {
@@ -305,7 +317,7 @@ func runStream(c streamCase) map[string]any {
 					if w.Op == "del" {
 						d.Same = ev.id == w.ID && ev.typ == types.ChangeType_REMOVE.String() && ev.value == nil
 					} else {
-						d.Same = ev.id == w.ID && ev.value != nil && !ev.seed && proto.Equal(ev.value, e.conc(w.V))
+						d.Same = ev.id == w.ID && ev.value != nil && !ev.seed && proto.Equal(ev.value, e.conc(proj(w.V, c.Subs[si].Mask.Nil, c.Subs[si].Mask.Fs)))
 					}
 				} else {
 					d.Same = len(evs) == 0
@@ -337,4 +349,40 @@ func seedMatches(evs []event, stored map[string]proto.Message, updatesOnly bool)
 		}
 	}
 	return true
+}
+
+// ---- read masks (spec: Proj in Cmp.tla) ----------------------------------------
+
+var maskField = map[string]string{"fl": "default_float", "db": "default_double", "rd": "repeated_double",
+	"wk": "default_well_known", "i": "default_int32"}
+
+func concMask(fs []string) *fieldmaskpb.FieldMask {
+	fm := &fieldmaskpb.FieldMask{Paths: []string{}}
+	for _, f := range fs {
+		fm.Paths = append(fm.Paths, maskField[f])
+	}
+	return fm
+}
+
+// proj is what a subscriber with the mask is shown of m: the listed fields, the rest unset.
+func proj(m Msg, isNil bool, fs []string) Msg {
+	if isNil {
+		return m
+	}
+	out := Msg{Ty: m.Ty, Fl: Flt{K: "fin"}, Db: Flt{K: "fin"}}
+	for _, f := range fs {
+		switch f {
+		case "fl":
+			out.Fl = m.Fl
+		case "db":
+			out.Db = m.Db
+		case "rd":
+			out.Rd = m.Rd
+		case "wk":
+			out.Wk = m.Wk
+		case "i":
+			out.I = m.I
+		}
+	}
+	return out
 }
